@@ -317,7 +317,7 @@ pub fn check_udp(prop: &str, plan: &Plan, up: &UdpPlan, run: &UdpRun) -> Vec<Vio
             }
             let n = delivered.get(&(ai, *t, *seq)).copied().unwrap_or(0);
             let oversize = *size > 65507 - 600;
-            if n == 0 && !lossy && !oversize {
+            if n == 0 && up.loss_pm == 0 && !oversize {
                 v.push(Violation::new(prop, sig("datagram-lost"), format!("datagram app {ai} -> target {t} seq {seq} ({size} bytes) never reached the target")));
             }
             if n > 1 && !(lossy && legacy) {
@@ -378,7 +378,7 @@ pub fn check_udp(prop: &str, plan: &Plan, up: &UdpPlan, run: &UdpRun) -> Vec<Vio
                 v.push(Violation::new(prop, sig("reply-duplicated"), format!("application {ai}: reply target {t} seq {seq} r {r} arrived {n} times")));
             }
         }
-        if !lossy {
+        if up.loss_pm == 0 {
             for (t, seq, size) in &o.sent[ai] {
                 if *size < 9 || delivered.get(&(ai, *t, *seq)).copied().unwrap_or(0) == 0 {
                     continue;
@@ -484,6 +484,39 @@ pub fn gen_c02(seed: u64, thorough: bool) -> Plan {
         net_seed: g.next(),
         config,
         knobs: KnobsPlan { latency_us: *g.pick(&[0, 0, 300, 8000]), jitter_us: *g.pick(&[0, 0, 2000]), read_style: *g.pick(&[0, 0, 2, 4]), ..KnobsPlan::simple() },
+        flows: vec![],
+        extra: serde_json::json!({ "udp": up }),
+    }
+}
+
+/// C11, system half: the real Shadowsocks-2022 client and server with a link that duplicates and reorders but
+/// does not lose. Every numbered datagram and every reply must arrive exactly once: duplicates are refused,
+/// reordered ones inside the window accepted, and a refusal never ends the session or the service.
+pub fn gen_c11_system(seed: u64, thorough: bool) -> Plan {
+    let mut g = Gen::new(seed, 111);
+    let ciphers: Vec<&str> = SS_CIPHERS.iter().copied().filter(|c| is_2022(c)).collect();
+    let cipher = ciphers[seed as usize % ciphers.len()];
+    let n_users = if supports_eih(cipher) && g.chance(40) { 2 } else { 0 };
+    let config = udp_config(&mut g, Proto::Shadowsocks, cipher, Transport::Tcp, n_users);
+    let mut up = gen_udp_plan(&mut g, thorough, 4000);
+    for a in up.apps.iter_mut() {
+        // bursts, so that reordering has something to reorder
+        let t = 0;
+        let burst = g.range(5, 40);
+        for _ in 0..burst {
+            a.push(UdpOp::Send { t, size: g.range(9, 200) as usize });
+        }
+    }
+    up.loss_pm = 0;
+    up.dup_pm = *g.pick(&[300, 600, 1000]);
+    up.reorder_pm = *g.pick(&[0, 500, 900]);
+    Plan {
+        property: "C11".into(),
+        scenario: "udp-system".into(),
+        seed,
+        net_seed: g.next(),
+        config,
+        knobs: KnobsPlan { latency_us: *g.pick(&[0, 300, 8000]), jitter_us: *g.pick(&[0, 2000]), ..KnobsPlan::simple() },
         flows: vec![],
         extra: serde_json::json!({ "udp": up }),
     }
